@@ -309,8 +309,8 @@ func (s *TunnelServer) handleNewChannel(channel ssh.NewChannel, extraPayloadCh c
 		if req.Type != "exec" || len(req.Payload) <= 4 {
 			continue
 		}
-		end := 4 + binary.BigEndian.Uint32(req.Payload[:4])
-		if len(req.Payload) < int(end) {
+		end := 4 + uint64(binary.BigEndian.Uint32(req.Payload[:4]))
+		if uint64(len(req.Payload)) < end {
 			continue
 		}
 		extraPayload := string(req.Payload[4:end])
